@@ -46,6 +46,12 @@ ASSUMPTIONS = [
     "any value of 1-tanh^2 on [x-f/8, x+f/8], f=2*min(channel max|x|,1) <= 2 (tanh' is taken at "
     "the randomly rounded point); the maximal element(s) of a channel with max|x|<=1 are only "
     "checked for finiteness (f depends on them, an undocumented extra gradient term)",
+    "post-construction mutation: after q._set_trainable_parameter() (called directly or by "
+    "QDense(4, kernel_quantizer=q) on its kernel quantizer), before or after a first call, the "
+    "expected gradient is the table entry of the configuration the object then documents "
+    "(alpha None -> 'auto_po2', symmetric True for quantized_bits/quantized_linear; any other "
+    "alpha unchanged); ternary/stochastic_ternary with an explicit threshold are not mutated "
+    "(threshold is documented for non-string alpha only)",
     "inputs |x| <= 1e30 (2*max|x| must not overflow float32 in the 'auto' scale)",
 ]
 BUDGET_S = {"quick": 35, "thorough": 800}
@@ -55,7 +61,9 @@ _CLS = ["quantized_bits", "quantized_linear", "quantized_relu", "quantized_po2",
 _REQ = _CLS + ["lattice", "hyp", "both_sides", "clipped_region", "unclipped_region",
                "near_kink", "pinned_max", "nonste", "f_mid", "f_0", "phase1", "finite_only",
                "alpha_auto", "alpha_auto_po2", "alpha_const", "alpha_list", "extreme_inputs",
-               "binary:stochastic_rounding", "ternary:stochastic_rounding", "band_oracle"]
+               "binary:stochastic_rounding", "ternary:stochastic_rounding", "band_oracle",
+               "mut_trainable", "mut_qdense", "mut_after_first_call", "mut_before_first_call",
+               "mut_alpha_none_to_auto_po2"]
 REQUIRED_LABELS = {"quick": _REQ, "thorough": _REQ}
 
 TOL = 1e-5
@@ -124,13 +132,25 @@ def run_tape(cfg, x, r):
     q = G.build(cfg)
     xt = tf.constant(x)
     rt = tf.constant(r)
+    mut = cfg.get("mutation", "none")
+    if mut != "none":
+      if cfg.get("when", "before") == "after":
+        q(xt)                     # the object has already been used once
+      if mut == "trainable":
+        q._set_trainable_parameter()
+      elif mut == "qdense":
+        from qkeras import QDense  # pylint: disable=g-import-not-at-top
+        q = QDense(4, kernel_quantizer=q).kernel_quantizer_internal
+      else:
+        raise core.HarnessError("unknown mutation %r" % mut)
+    ecfg = R.effective(cfg)
     with tf.GradientTape() as tape:
       tape.watch(xt)
       y = q(xt)
       loss = tf.reduce_sum(y * rt)
     g = tape.gradient(loss, xt)
     qs = None
-    if cfg["cls"] == "quantized_linear" and isinstance(cfg["kw"].get("alpha"), str):
+    if cfg["cls"] == "quantized_linear" and isinstance(ecfg["kw"].get("alpha"), str):
       qs = np.asarray(q.quantization_scale, dtype=np.float64)
     return (np.asarray(y.numpy()), None if g is None else np.asarray(g.numpy()), qs)
   finally:
@@ -140,17 +160,25 @@ def run_tape(cfg, x, r):
 def evaluate(case):
   """Returns (fails, labels, nontrivial); fails = [(sub_check, signature,
   detail, element_index or None)]."""
-  cfg = case["cfg"]
+  raw = case["cfg"]
+  cfg = R.effective(raw)        # what the object documents after the mutation
   shape = list(case["shape"])
   x = np.asarray(case["xs"], dtype=np.float32).reshape(shape)
   r = np.asarray(case["rs"], dtype=np.float32).reshape(shape)
   base = sig_base(cfg)
+  mut = raw.get("mutation", "none")
+  base["mut"] = mut if mut == "none" else "%s:%s" % (mut, raw.get("when", "before"))
   labels = [cfg["cls"], "%s:%s" % (cfg["cls"], base["family"]), "alpha_" + base["alpha"],
             "f_" + base["f"], "rank%d" % len(shape)]
   if base["ste"] == "nonste":
     labels.append("nonste")
   if base["phase"]:
     labels.append("phase1")
+  if mut != "none":
+    labels.append("mut_" + mut)
+    labels.append("mut_" + raw.get("when", "before") + "_first_call")
+    if raw["kw"].get("alpha", None) is None:
+      labels.append("mut_alpha_none_to_auto_po2")
   if cfg["kw"].get("use_variables"):
     labels.append("use_variables")
   if cfg["kw"].get("scale_axis") is not None:
@@ -161,7 +189,7 @@ def evaluate(case):
     labels.append("extreme_inputs")
   fails = []
   try:
-    y, g, qs = run_tape(cfg, x, r)
+    y, g, qs = run_tape(raw, x, r)
   except Exception as e:  # pylint: disable=broad-except
     fr = core.qkeras_frame(e.__traceback__)
     if fr is None:
